@@ -4,7 +4,7 @@
 use crate::crash::{self, CrashOpts, Mode};
 use crate::framework::{Ctx, Spec, Tier};
 use crate::gen;
-use crate::model::CMP_WRITABLE;
+use crate::model::CMP_ALL;
 use crate::ops::{self, Op};
 use crate::rng::Rng;
 use serde_json::json;
@@ -147,7 +147,7 @@ pub fn crash_history(ctx: &mut Ctx, ops: &[Op], key_seed: u64, mode: Mode, r: &m
     ctx.count("histories");
     let o = CrashOpts {
         mode,
-        mask: CMP_WRITABLE,
+        mask: CMP_ALL,
         get_cap: 64,
         only: None,
         only_kind: None,
